@@ -244,6 +244,18 @@ def build_for(prop):
     return info
 
 
+def tie_lemma_counts(prop):
+    """number of Qed-closed lemmas/theorems in each tie file of the property (they were compiled on this run)"""
+    out = {}
+    for tie in TIE_FOR.get(prop, []):
+        try:
+            text = strip_comments(open(os.path.join(COQ, tie + '.v')).read())
+        except OSError:
+            continue
+        out[tie] = len(re.findall(r'^\s*(Lemma|Theorem|Corollary)\s+\w+', text, flags=re.M))
+    return out
+
+
 def failing_lemma(vfile, line):
     try:
         lines = open(vfile).read().split('\n')
